@@ -1,5 +1,5 @@
 (* C20 - evaluation entry points for the correspondence harness. *)
-From CfdmV Require Import Common.Base Tables.LogLevels C20.Model.
+From CfdmV Require Import Common.Base Tables.LogLevels C20.Model C20.Trace.
 Open Scope Z_scope.
 Open Scope string_scope.
 
@@ -33,3 +33,21 @@ Definition check_case (cs : block * block * (string * Z * Z * nat * Z * Z)
 (* the same through the decorator as it was at the pinned commit *)
 Definition check_case_old_call (cs : call * (string * Z * Z * nat * Z * Z)) : bool :=
   let '(c, e1) := cs in full_eqb (fst (run_call_old c base)) e1.
+
+(* what code running inside a decorated call saw: the prelude, the call, the
+   state after the prelude and the observed (level, disable, root) triples *)
+Definition probe_eqb (a b : probe) : bool :=
+  let '(l1, d1, r1) := a in let '(l2, d2, r2) := b in
+  String.eqb l1 l2 && Z.eqb d1 d2 && Z.eqb r1 r2.
+
+Fixpoint probes_eqb (a b : list probe) : bool :=
+  match a, b with
+  | [], [] => true
+  | x :: a', y :: b' => probe_eqb x y && probes_eqb a' b'
+  | _, _ => false
+  end.
+
+Definition check_trace (cs : block * call * (string * Z * Z * nat * Z * Z) * list probe) : bool :=
+  let '(pre, c, e0, tr) := cs in
+  let s0 := fst (run_block pre base) in
+  full_eqb s0 e0 && probes_eqb (snd (trace_call c s0)) tr.
